@@ -475,6 +475,136 @@ def corpus():
     return out
 
 
+# ---------------------------------------------------------------------------------------
+# text corpus: witnesses outside the proggen fragment (trait where-clauses, hypothetical goals)
+# ---------------------------------------------------------------------------------------
+
+F31_PROGRAM = """struct S0 { }
+trait Tr0<P0> where P0: Tr3 { }
+trait Tr1<P0> where P0: Tr0<Self> { }
+trait Tr2 where Self: Tr1<S0> { }
+trait Tr3 where Self: Tr2, Self: Tr4 { }
+trait Tr4 where Self: Tr3 { }"""
+
+
+def text_corpus():
+    """(name, program text, goal texts): every order of the goals is posed to one solver instance and
+    compared with fresh solvers, cache on and off"""
+    hyp = "forall<X1, X2> { if (X1: Tr0<X2>) { %s } }"
+    return [("corpus-F31", F31_PROGRAM, [hyp % "X2: Tr2", hyp % "X2: Tr3", hyp % "X2: Tr4"])]
+
+
+def _parse_ty(s):
+    """`Name` or `Name<ty, ...>` -> (name, (args...))"""
+    s = s.strip()
+    if "<" not in s:
+        return (s, ())
+    name, rest = s.split("<", 1)
+    return (name.strip(), tuple(_parse_ty(x) for x in _split_top(rest.rsplit(">", 1)[0], ",")))
+
+
+def _split_top(s, sep):
+    out, depth, cur = [], 0, ""
+    for ch in s:
+        if ch in "<(":
+            depth += 1
+        elif ch in ">)":
+            depth -= 1
+        if ch == sep and depth == 0:
+            out.append(cur)
+            cur = ""
+        else:
+            cur += ch
+    if cur.strip():
+        out.append(cur)
+    return out
+
+
+def _parse_bound(s):
+    """`ty: Trait<args>` -> (trait, (ty, args...)); None when it is not of that form"""
+    if ":" not in s:
+        return None
+    ty, tr = s.split(":", 1)
+    if any(w in s for w in ("=", "FromEnv", "WellFormed", "forall", "exists", "not ", "'", "&", "dyn ", "fn(")):
+        return None
+    t = _parse_ty(tr)
+    return (t[0], (_parse_ty(ty),) + t[1])
+
+
+def _ty_subst(t, m):
+    if t[0] in m and not t[1]:
+        return m[t[0]]
+    return (t[0], tuple(_ty_subst(a, m) for a in t[1]))
+
+
+def _ty_names(t, acc):
+    acc.add(t[0])
+    for a in t[1]:
+        _ty_names(a, acc)
+    return acc
+
+
+def rec_ambig_class(text, goal_text, limit=300):
+    """class `rec-ambig-existential-bound` (finding C06-rec-ambiguous-bound / F31), decided on the input:
+    the goal is `forall<..> { if (bounds) { .. } }`, and in the closure of its hypotheses under the
+    implied-bound rules `FromEnv(wc) :- FromEnv(Self: T<P..>)` of the traits' where-clauses some rule has a
+    body variable that its head does not mention while two distinct facts of the closure match the body
+    with the same head instance (the sub-goal `FromEnv(?: T<..>)` then has two answers; the recursive
+    solver cannot enumerate them and answers Ambiguous, and whether a particular goal is hit depends on
+    clause order, provisional cycle values and therefore on what the cache holds).
+    Unknown syntax -> False (no attribution)."""
+    import re
+    try:
+        m = re.match(r"\s*forall<([^>]*)>\s*\{\s*if\s*\((.*?)\)\s*\{", goal_text)
+        if not m:
+            return False
+        facts = set()
+        for h in _split_top(m.group(2), ";"):
+            b = _parse_bound(h)
+            if b is None:
+                return False
+            facts.add(b)
+        rules = []          # (trait, params incl. Self, head bound)
+        for tm in re.finditer(r"trait\s+(\w+)\s*(?:<([^>{]*)>)?\s*(?:where\s+([^{]*))?\{", text):
+            params = ["Self"] + [x.strip() for x in (tm.group(2) or "").split(",") if x.strip()]
+            for wc in _split_top(tm.group(3) or "", ","):
+                b = _parse_bound(wc)
+                if b is None:
+                    return False
+                rules.append((tm.group(1), params, b))
+        changed = True
+        while changed:
+            changed = False
+            for (tr, params, head) in rules:
+                for f in list(facts):
+                    if f[0] != tr or len(f[1]) != len(params):
+                        continue
+                    mp = dict(zip(params, f[1]))
+                    nf = (head[0], tuple(_ty_subst(a, mp) for a in head[1]))
+                    if nf not in facts:
+                        facts.add(nf)
+                        changed = True
+                        if len(facts) > limit:
+                            return False
+        for (tr, params, head) in rules:
+            used = set()
+            for a in head[1]:
+                _ty_names(a, used)
+            pos = [i for i, q in enumerate(params) if q in used]
+            if len(pos) == len(params):
+                continue
+            seen = {}
+            for f in facts:
+                if f[0] == tr and len(f[1]) == len(params):
+                    key = tuple(f[1][i] for i in pos)
+                    if key in seen and seen[key] != f:
+                        return True
+                    seen[key] = f
+        return False
+    except Exception:
+        return False
+
+
 def auto_cycle_programs():
     """3-struct auto-trait cycles with a failing leaf, in all field orders of the struct that holds the
     leaf: a goal that reaches an already-solved, still provisional member of the cycle must not be
